@@ -61,7 +61,7 @@ def firstBadByte (E : Enc) : Option Nat :=
 maximum code to get the compared prefix length (the shipped code used 0; repaired code 1). -/
 def retargetWith (off : Nat) (src tgt : List Nat) (d : List Nat) : Option (List Nat) :=
   match d.max? with
-  | none => none                     -- numpy: max of empty raises
+  | none => some d                   -- no letters: nothing to check, the (empty) data is relabelled (before fix: `max` of an empty array raised)
   | some m =>
     if src.take (m + off) == tgt.take (m + off) then
       if m < tgt.length then some d else none
